@@ -55,7 +55,11 @@ def convert(raw, sid):
         sched.append({"s": "hookfault", "hook": "sync", "code": 429})
     elif outcome == "apiErr":
         sched.append(api_fault)
-    for _ in range(2):
+    nsync = 2
+    if outcome == "outage":
+        sched.append({"s": "hookfault", "hook": "sync", "code": 500, "n": 13 if kind != "rolling" else 26})
+        nsync = 16
+    for _ in range(nsync):
         sched += [{"s": "sync", "a": "A", "key": key}, {"s": "run", "a": "A"}, {"s": "deliver"}]
     return {"id": sid, "fam": "requeue", "cfg": cfg, "objs": [parent], "hook": {"sync": prog}, "sched": sched,
             "expect": {"resyncMs": RESYNC_MS, "parentUid": "p1",
